@@ -140,7 +140,9 @@ func (s *SendStream) write(p []byte) (bool /* is newly completed */, int, error)
 		// This allows us to return Write() when all data but x bytes have been sent out.
 		// When the user now calls Close(), this is much more likely to happen before we popped that last STREAM frame,
 		// allowing us to set the FIN bit on that frame (instead of sending an empty STREAM frame with FIN).
-		if s.canBufferStreamFrame() && len(s.dataForWriting) > 0 {
+		// Once the stream has been reset or shut down, nextFrame has been dropped and nothing will be sent anymore:
+		// don't buffer the remaining data (that would make Write succeed, and keep the stream from ever completing).
+		if s.resetErr == nil && s.shutdownErr == nil && s.canBufferStreamFrame() && len(s.dataForWriting) > 0 {
 			if s.nextFrame == nil {
 				f := wire.GetStreamFrame()
 				f.Offset = s.writeOffset
